@@ -4,7 +4,7 @@
 # tools/msb.sh try <PROP> <patch.diff>   apply the patch in the sandbox repo, run the sandbox check, revert
 # The sandbox lets seeded changes be tested while checks keep running against /repo itself.
 set -e
-SB=/tmp/msb
+SB="${MSB:-/tmp/msb}"
 case "$1" in
 sync)
   if [ ! -d $SB/repo ]; then git -C /repo worktree add -q --detach $SB/repo HEAD; fi
